@@ -262,6 +262,30 @@ func RunRapid(c *core.Ctx) {
 	loopN := map[string]int{}
 	for _, file := range pkg.Syntax {
 		ast.Inspect(file, func(n ast.Node) bool {
+			if rs, isRange := n.(*ast.RangeStmt); isRange {
+				// a range over an integer, string, array, slice or map runs a bounded number of times (the operand is
+				// evaluated once); channels and iterator functions are not bounded
+				fn := enclosingFunc(file, rs.Pos())
+				loopN[fn]++
+				con := fmt.Sprintf("rapidproto loop@%s#%d", fn, loopN[fn])
+				bounded := false
+				if t := info.TypeOf(rs.X); t != nil {
+					switch u := t.Underlying().(type) {
+					case *types.Basic:
+						bounded = u.Info()&(types.IsInteger|types.IsString) != 0
+					case *types.Slice, *types.Array, *types.Map:
+						bounded = true
+					case *types.Pointer:
+						_, bounded = u.Elem().Underlying().(*types.Array)
+					}
+				}
+				if bounded {
+					c.Ok("RAPID.term.loop", con+" range "+types.ExprString(rs.X), "range over a finite operand evaluated once", pos(rs.Pos()), src)
+				} else {
+					c.Undec("RAPID.term.loop", con, "range over a channel or an iterator function: not bounded", pos(rs.Pos()), src)
+				}
+				return true
+			}
 			fs, ok := n.(*ast.ForStmt)
 			if !ok {
 				return true
@@ -1244,8 +1268,30 @@ func countedLoop(info *types.Info, fs *ast.ForStmt) (bool, string) {
 		return false, "condition does not test the induction variable"
 	}
 	bound, ok := cond.Y.(*ast.Ident)
+	boundText := ""
 	if !ok {
-		return false, "bound is not a plain variable"
+		// len(v) of a variable, or v.Len() of an immutable protoreflect list (descriptor lists), v not assigned in the body
+		if call, isCall := cond.Y.(*ast.CallExpr); isCall {
+			switch f := call.Fun.(type) {
+			case *ast.Ident:
+				if _, isB := info.Uses[f].(*types.Builtin); isB && f.Name == "len" && len(call.Args) == 1 {
+					bound, ok = call.Args[0].(*ast.Ident)
+				}
+			case *ast.SelectorExpr:
+				if fn, isF := info.Uses[f.Sel].(*types.Func); isF && fn.Name() == "Len" && len(call.Args) == 0 && fn.Pkg() != nil &&
+					fn.Pkg().Path() == "google.golang.org/protobuf/reflect/protoreflect" {
+					if rt := info.TypeOf(f.X); rt != nil && strings.HasSuffix(rt.String(), "Descriptors") {
+						bound, ok = f.X.(*ast.Ident)
+					}
+				}
+			}
+			if ok {
+				boundText = types.ExprString(cond.Y)
+			}
+		}
+		if !ok {
+			return false, "bound is not a plain variable"
+		}
 	}
 	post, ok := fs.Post.(*ast.IncDecStmt)
 	if !ok || post.Tok != token.INC {
@@ -1286,7 +1332,10 @@ func countedLoop(info *types.Info, fs *ast.ForStmt) (bool, string) {
 	if bad != "" {
 		return false, bad
 	}
-	return true, fmt.Sprintf("for %s < %s", iv.Name, bound.Name)
+	if boundText == "" {
+		boundText = bound.Name
+	}
+	return true, fmt.Sprintf("for %s < %s", iv.Name, boundText)
 }
 
 // runRapidNil: interprocedural flow of nil FieldDescriptor arguments.
